@@ -270,7 +270,7 @@ example : (analyse { genCfg with rmwInPlace := true } db1 (rmw1 ++ rmw1)).2.map 
 example : ({ genCfg with rmwInPlace := true } : Cfg).safe = false := by decide
 example : ({ genCfg with rmwInPlace := true, loadByRef := false } : Cfg).safe = true := by decide
 -- process level: shadowed cache hides the pollution from the reports, unshadowed does not
-example : (runProc { genCfg with rmwInPlace := true } (fun _ => db1) Proc.fresh [⟨0, rmw1⟩, ⟨0, rmw1⟩]).2.map
+example : (runProc { genCfg with rmwInPlace := true, cacheShadowed := true } (fun _ => db1) Proc.fresh [⟨0, rmw1⟩, ⟨0, rmw1⟩]).2.map
     (fun r => r.map (·.uops)) = [[[1, 2, 3]], [[1, 2, 3]]] := by decide
 example : (runProc { genCfg with rmwInPlace := true, cacheShadowed := false } (fun _ => db1) Proc.fresh
     [⟨0, rmw1⟩, ⟨0, rmw1⟩]).2.map (fun r => r.map (·.uops)) = [[[1, 2, 3]], [[1, 2, 3, 3]]] := by decide
